@@ -259,8 +259,11 @@ def km_rec_init(ex, st, fr, self, args, kwargs):
         v = vals.get(k)
         st.set_inplace(self, k, v if v is not None else VT(tm.S(dflt)))
     dbx = vals.get("dbxrefs")
-    st.set_inplace(self, "dbxrefs", VT(ex.models.dbx_term(st, dbx), "list") if dbx is not None else VT(
-        tm.app("dbx_empty", DBX), "list"))
+    if isinstance(dbx, VT) and dbx.t.sort == DBX:
+        st.set_inplace(self, "dbxrefs", dbx)     # (the object handed in is stored: keeps the ownership ghost)
+    else:
+        st.set_inplace(self, "dbxrefs", VT(ex.models.dbx_term(st, dbx), "list") if dbx is not None else VT(
+            tm.app("dbx_empty", DBX), "list"))
     feats = vals.get("features")
     if feats is None or isinstance(feats, VNone):
         feats = VT(tm.app("feats_empty", FEATS), "list")
